@@ -150,6 +150,28 @@ def threadlock_shape(res):
         res.bad("R-THREADLOCK", "stackalloc:atomic-reservation", file, tlif.get("line"),
                 "under d->threadlock the shared stack pointer must be advanced only by one atomic add on &d->pstack "
                 f"(atomic calls: {len(atomic_calls)}, plain writes in branch: {len(plain_writes_in)})")
+    # the block must be derived from the value RETURNED by the atomic add (this thread's own reservation): the result is bound
+    # to a local, and the branch contains no other read of the shared stack pointer (directly or through a helper that reads it)
+    bound = [x for x in cir.walk(then) if x.get("k") == "VarDecl" and x.get("init") and
+             any(y.get("k") == "AtomicExpr" for y in cir.walk(x))]
+    other_reads = []
+    readers_of_pstack = {name for name, f_ in u.funcs.items()
+                         if any(y.get("k") == "MemberExpr" and y.get("n") == "pstack" for y in cir.walk(f_))}
+    for x in cir.walk(then):
+        if x.get("k") == "MemberExpr" and x.get("n") == "pstack":
+            inside_atomic = any(any(z is x for z in cir.walk(a_)) for a_ in atomic_nodes)
+            if not inside_atomic:
+                other_reads.append(x.get("line"))
+        if cir.is_call(x) and cir.callee(x) in readers_of_pstack and cir.callee(x) != "stackalloc":
+            other_reads.append(x.get("line"))
+    if len(bound) == 1 and not other_reads:
+        res.ok("R-THREADLOCK", "stackalloc:block-from-atomic-result", {"bound_to": bound[0].get("n")})
+    else:
+        res.bad("R-THREADLOCK", "stackalloc:block-from-atomic-result", file, tlif.get("line"),
+                "under d->threadlock the block must be computed from the value returned by the atomic add; "
+                + ("the result of the atomic add is discarded" if len(bound) != 1 else "")
+                + (f" d->pstack is read again (line {other_reads[0]}): another thread's reservation can land in between and both "
+                   f"threads derive the same block" if other_reads else ""))
     # threadlock branch must return on every path (never fall into the single-thread path)
     class R(paths.Rule):
         def fallthrough(self, st, ctx):
